@@ -1103,4 +1103,180 @@ Proof.
     + apply Nat.leb_gt in Er. apply (Hmain (cx_input c) (cx_caret c)). split; [reflexivity|]. right. split; [reflexivity | exact Er].
 Qed.
 
+(** ---- Context::Select, ConfirmCurrentSelection ---- *)
+Lemma to_selected_sfit inp g : seg_inv cfg MPf g -> sfit true inp g -> sfit true inp (seg_with_status g SSelected).
+Proof.
+  intros (_ & Hmi) (Ht & Hm). split; [exact Ht|]. intros m Em. cbn in Em. specialize (Hm m Em).
+  destruct (Hmi m Em) as (_ & _ & Hmp). unfold menu_ok in *. cbn [s_status seg_with_status].
+  destruct (s_status g) eqn:Es; try exact Hm; [discriminate Hm|].
+  split; [|split].
+  - intros c Hsel. change (selected_cand g = Some c) in Hsel. destruct (selected_in g c Hsel) as (m' & Em' & Hin).
+    rewrite Em in Em'. injection Em' as <-. apply Hm, Hin.
+  - intros c Hin. specialize (Hm c Hin). unfold oend. cbn [s_end s_start s_length seg_with_status]. lia.
+  - cbn [s_end s_start seg_with_status]. intros Hse. destruct m as [|c0 m']; [reflexivity|]. exfalso.
+    pose proof (Hm c0 (or_introl eq_refl)). pose proof (Hmp c0 (or_introl eq_refl)). lia.
+Qed.
+
+Lemma set_back_cinv c g0 r g :
+  cinvT c -> sg_segs (cx_comp c) = g0 :: r -> seg_inv cfg MPf g -> s_start g = s_start g0 -> s_end g = s_end g0 ->
+  cinvT (ctx_with_comp c (sg_set_back (cx_comp c) g)).
+Proof.
+  intros H E Hg E1 E2.
+  assert (Hbg : True -> back_geo_ok c g).
+  { intros _. wf back_geo_same. intros g1 r1 X. rewrite E in X. injection X as <- <-. split; assumption. }
+  wf cinv_set_back.
+Qed.
+
+Lemma select_good s i : sgood s -> sgood (fst (select cfg translate s i)).
+Proof.
+  intros (H & F). unfold select. destruct (sg_segs (cx_comp (st_ctx s))) as [|g r] eqn:E; [split; assumption|].
+  destruct (cand_at g i) as [cd|] eqn:Ec; [|split; assumption]. cbn [fst].
+  assert (Hsi : seg_inv cfg MPf g) by (wf back_inv).
+  assert (Hsi1 : seg_inv cfg MPf (seg_with_sel g i)).
+  { wf seg_inv_sel_at. intros m Hm _. wf cand_at_some. }
+  assert (Hsi2 : seg_inv cfg MPf (seg_with_status (seg_with_sel g i) SSelected)) by (wf seg_inv_status).
+  destruct (back_of_fit _ g r F E) as (Hg & Hc). destruct F as (He & L & K & P).
+  apply (on_select_good _ (seg_with_status (seg_with_sel g i) SSelected) r).
+  - apply (set_back_cinv _ g r _ H E Hsi2); reflexivity.
+  - exact He.
+  - cbn. unfold sg_set_back. rewrite E. reflexivity.
+  - cbn [st_ctx st_with_ctx ctx_with_comp cx_comp]. rewrite set_back_input. rewrite E in L. inversion L; subst.
+    constructor; [|assumption]. apply to_selected_sfit; [exact Hsi1|]. apply sel_sfit; assumption.
+  - reflexivity.
+  - unfold prefix_ok. cbn. rewrite set_back_input. exact P.
+Qed.
+
+Lemma confirm_current_selection_good s : sgood s -> sgood (fst (confirm_current_selection cfg translate s)).
+Proof.
+  intros (H & F). unfold confirm_current_selection. destruct (sg_segs (cx_comp (st_ctx s))) as [|g r] eqn:E; [split; assumption|].
+  assert (Hsi : seg_inv cfg MPf g) by (wf back_inv).
+  assert (Hsi2 : seg_inv cfg MPf (seg_with_status g SSelected)) by (wf seg_inv_status).
+  destruct (back_of_fit _ g r F E) as (Hg & Hc).
+  pose proof (to_selected_sfit _ g Hsi Hg) as Hg2.
+  pose proof (set_back_cinv _ g r _ H E Hsi2 eq_refl eq_refl) as H1.
+  assert (Hos : sgood (on_select cfg translate (st_with_ctx s (ctx_with_comp (st_ctx s)
+                        (sg_set_back (cx_comp (st_ctx s)) (seg_with_status g SSelected)))))).
+  { destruct F as (He & L & K & P). apply (on_select_good _ (seg_with_status g SSelected) r).
+    - exact H1.
+    - exact He.
+    - cbn. unfold sg_set_back. rewrite E. reflexivity.
+    - cbn [st_ctx st_with_ctx ctx_with_comp cx_comp]. rewrite set_back_input. rewrite E in L. inversion L; subst.
+      constructor; assumption.
+    - reflexivity.
+    - unfold prefix_ok. cbn. rewrite set_back_input. exact P. }
+  destruct (selected_cand (seg_with_status g SSelected)); cbn [fst]; [exact Hos|].
+  destruct (s_end (seg_with_status g SSelected) =? s_start (seg_with_status g SSelected)) eqn:Ee; cbn [fst]; [|exact Hos].
+  apply Nat.eqb_eq in Ee. split; [exact H1|]. cbn [st_ctx st_with_ctx].
+  apply (fit_set_back _ g r _ F E Hg2). intros _. cbn in Ee |- *. lia.
+Qed.
+
+(** ---- combinators (as in WfProofs.v, for any state predicate) ---- *)
+Lemma on_ctx_b_good s f : sgood s -> (forall c, good c -> good (fst (f c))) -> sgood (fst (on_ctx_b s f)).
+Proof. intros H Hf. unfold on_ctx_b. specialize (Hf _ H). destruct (f (st_ctx s)). exact Hf. Qed.
+Lemma on_ctx_good s f : sgood s -> (forall c, good c -> good (f c)) -> sgood (on_ctx s f).
+Proof. intros H Hf. apply Hf, H. Qed.
+Lemma or_else_good r f : sgood (fst r) -> (forall s, sgood s -> sgood (fst (f s))) -> sgood (fst (or_else r f)).
+Proof. intros H Hf. unfold or_else. destruct r as [s ok]. destruct ok; [exact H | apply Hf, H]. Qed.
+Lemma sgood_sink s t : sgood s -> sgood (sink s t).
+Proof. intros H; exact H. Qed.
+
+Lemma kbp_process_good {A} (run : state -> A -> state * bool) km fb s k :
+  (forall s a, sgood s -> sgood (fst (run s a))) -> sgood s -> sgood (fst (kbp_process run km fb s k)).
+Proof.
+  intros Hr H. unfold kbp_process.
+  assert (Ha : forall s k, sgood s -> sgood (fst (kbp_accept run km s k))).
+  { intros s0 k0 H0. unfold kbp_accept. destruct (keymap_find km k0); [apply Hr; exact H0 | exact H0]. }
+  pose proof (Ha s k H) as H1. destruct (kbp_accept run km s k) as [s1 ok1]. cbn [fst] in H1.
+  destruct ok1; [exact H1|]. destruct (k_ctrl k || k_alt k); [exact H1|].
+  destruct (k_shift k && fb); [|exact H1].
+  pose proof (Ha s1 (mkKey (k_code k) (shift_as_control (k_mod k))) H1) as H2.
+  destruct (kbp_accept run km s1 _) as [s2 ok2]. cbn [fst] in H2. destruct ok2; [exact H2|].
+  pose proof (Ha s2 (mkKey (k_code k) (clear_shift (k_mod k))) H2) as H3.
+  destruct (kbp_accept run km s2 _) as [s3 ok3]. cbn [fst] in H3. destruct ok3; exact H3.
+Qed.
+
+(** ---- Selector, Speller, Navigator ---- *)
+Lemma run_sel_action_good s a : sgood s -> sgood (fst (run_sel_action cfg s a)).
+Proof.
+  intros H. destruct a; cbn [run_sel_action]; try exact H; apply on_ctx_b_good; try exact H; intros c Hc.
+  - apply sel_previous_candidate_good, Hc.
+  - apply sel_next_candidate_good, Hc.
+  - apply sel_previous_page_good, Hc.
+  - apply sel_next_page_good, Hc.
+  - apply sel_home_good, Hc.
+  - apply sel_end_good, Hc.
+Qed.
+
+Lemma select_candidate_at_good s i : sgood s -> sgood (fst (select_candidate_at cfg translate s i)).
+Proof.
+  intros H. unfold select_candidate_at. destruct (sg_segs (cx_comp (st_ctx s))) as [|g r]; [exact H|].
+  destruct (cf_page_size cfg <=? i)%Z; [exact H | apply select_good, H].
+Qed.
+
+Lemma selector_process_good s k : sgood s -> sgood (fst (selector_process cfg translate s k)).
+Proof.
+  intros H. unfold selector_process. destruct (k_release k || k_alt k || k_super k); [exact H|].
+  destruct (sg_segs (cx_comp (st_ctx s))) as [|g r]; [exact H|].
+  destruct ((match s_menu g with None => true | Some _ => false end) || has_tag TRaw (s_tags g)); [exact H|].
+  pose proof (kbp_process_good (run_sel_action cfg) (sel_keymap (st_ctx s)) false s k (fun s a => run_sel_action_good s a) H) as H1.
+  destruct (kbp_process (run_sel_action cfg) (sel_keymap (st_ctx s)) false s k) as [s1 r1]. cbn [fst] in H1.
+  destruct (negb (presult_is_noop r1)); [exact H1|].
+  destruct (0 <=? select_key_index cfg k)%Z; [apply select_candidate_at_good, H1 | exact H1].
+Qed.
+
+Lemma speller_process_good s k : sgood s -> sgood (fst (speller_process cfg translate s k)).
+Proof.
+  intros H. unfold speller_process.
+  repeat match goal with |- sgood (fst (if ?b then _ else _)) => destruct b; [exact H|] end.
+  cbn [fst]. apply on_ctx_good; [exact H|]. intros c Hc. apply begin_editing_good, push_input_good, Hc.
+Qed.
+
+Lemma begin_move_good s : sgood s -> sgood (begin_move s).
+Proof.
+  intros H. unfold begin_move. pose proof (begin_editing_good _ H) as H1.
+  destruct (negb (bytes_eqb (st_nav_input s) (cx_input (begin_editing (st_ctx s))))
+            || (spans_end (st_spans s) <? cx_caret (begin_editing (st_ctx s)))); exact H1.
+Qed.
+
+Lemma caret_to_good s pos : sgood s -> sgood (st_with_ctx s (set_caret_pos cfg translate (st_ctx s) pos)).
+Proof. intros H. apply set_caret_pos_good, H. Qed.
+
+Lemma jump_left_good s p : sgood s -> sgood (fst (jump_left cfg translate s p)).
+Proof. intros H. unfold jump_left. match goal with |- sgood (fst (if ?b then _ else _)) => destruct b end; [apply caret_to_good|]; exact H. Qed.
+Lemma jump_right_good s p : sgood s -> sgood (fst (jump_right cfg translate s p)).
+Proof. intros H. unfold jump_right. match goal with |- sgood (fst (if ?b then _ else _)) => destruct b end; [apply caret_to_good|]; exact H. Qed.
+Lemma move_left_good s : sgood s -> sgood (fst (move_left cfg translate s)).
+Proof. intros H. unfold move_left. destruct (cx_caret (st_ctx s) =? 0); [|apply caret_to_good]; exact H. Qed.
+Lemma move_right_good s : sgood s -> sgood (fst (move_right cfg translate s)).
+Proof. intros H. unfold move_right. destruct (length (cx_input (st_ctx s)) <=? cx_caret (st_ctx s)); [|apply caret_to_good]; exact H. Qed.
+Lemma go_home_good s : sgood s -> sgood (fst (go_home cfg translate s)).
+Proof.
+  intros H. unfold go_home.
+  match goal with |- sgood (fst (if ?b then _ else if ?d then _ else _)) => destruct b; [|destruct d] end;
+    try apply caret_to_good; exact H.
+Qed.
+Lemma go_to_end_good s : sgood s -> sgood (fst (go_to_end cfg translate s)).
+Proof. intros H. unfold go_to_end. match goal with |- sgood (fst (if ?b then _ else _)) => destruct b end; [apply caret_to_good|]; exact H. Qed.
+
+Lemma run_nav_action_good s a : sgood s -> sgood (fst (run_nav_action cfg translate s a)).
+Proof.
+  intros H. pose proof (begin_move_good s H) as H1.
+  destruct a; cbn [run_nav_action fst]; try exact H.
+  - apply or_else_good; [|intros; apply go_to_end_good; assumption].
+    destruct ((1 <? spans_count (st_spans (begin_move s))) && _); [apply jump_left_good | apply move_left_good]; exact H1.
+  - apply or_else_good; [apply move_left_good, H1 | intros; apply go_to_end_good; assumption].
+  - apply or_else_good; [apply move_right_good, H1 | intros; apply go_home_good; assumption].
+  - apply or_else_good; [apply jump_left_good, H1 | intros; apply go_to_end_good; assumption].
+  - apply or_else_good; [apply jump_right_good, H1 | intros; apply go_to_end_good; assumption].
+  - apply go_home_good, H1.
+  - apply go_to_end_good, H1.
+Qed.
+
+Lemma navigator_process_good s k : sgood s -> sgood (fst (navigator_process cfg translate s k)).
+Proof.
+  intros H. unfold navigator_process. destruct (k_release k); [exact H|].
+  destruct (negb (is_composing (st_ctx s))); [exact H|].
+  apply kbp_process_good; [intros; apply run_nav_action_good; assumption | exact H].
+Qed.
+
 End Full.
